@@ -669,6 +669,7 @@ fn run_case(ctx: &CaseCtx, stats: &mut Stats, out: &mut Vec<Violation>, harness:
             let vinfo = if vi == 0 { None } else { Some(spec_info(&specs[vi], n, s.len())) };
             let info_v = vinfo.as_ref().unwrap_or(&info);
             let cross = n <= plan.cross_len;
+            compiled[vi].ctx_steps = 0;
             let (h, div, n_amb) = reference_for(&mut compiled[vi], input, text, cross, &obs_els, info_v, harness);
             // ---- evidence counters from the reference's knowledge of this execution
             if vi == 0 {
@@ -701,7 +702,11 @@ fn run_case(ctx: &CaseCtx, stats: &mut Stats, out: &mut Vec<Violation>, harness:
                 let prim = primary_calls[vi].as_ref().unwrap();
                 let prim_nt = strip_text(prim);
                 let counter = Cell::new(0u64);
-                let limit = read_limit(n, n_rules);
+                // polynomial budget, never below 32x what the reference itself had to examine on this
+                // input (scans + context evaluations): rewind- and context-heavy definitions are
+                // inherently quadratic / cubic and must not be mistaken for non-termination
+                let ref_work = h.stats.chars_examined + compiled[vi].ctx_steps;
+                let limit = read_limit(n, n_rules).max(32 * ref_work + 4096);
                 let mut variants: Vec<(&str, bool, Calls)> = vec![];
                 {
                     set_use_text(text);
